@@ -143,6 +143,20 @@ func vfDump(m map[string]string) string {
 	return sb.String()
 }
 
+// vfDumpFull renders every entry, the op id included.
+func vfDumpFull(m map[string]string) string {
+	ks := make([]string, 0, len(m))
+	for k := range m {
+		ks = append(ks, k)
+	}
+	sort.Strings(ks)
+	var sb strings.Builder
+	for _, k := range ks {
+		sb.WriteString(k + "=" + m[k] + ";")
+	}
+	return sb.String()
+}
+
 func vfDumpEph(m map[interface{}]interface{}) string {
 	s := map[string]string{}
 	for k, v := range m {
@@ -382,7 +396,19 @@ func vfCloneMake(scn string) (func(), func(*vsched.Exec) (string, *vsched.Violat
 	body := func() {
 		vfResetGlobals()
 		bad, trace = "", ""
-		orig := NewFContext("cid0")
+		// where the context to be cloned comes from: made by the application, received by a server
+		// (ReadRequestHeader: the caller's op id and correlation id sit among the response headers), or
+		// made by the application and given the reserved names as response headers by hand
+		var orig FContext
+		switch vsched.Choose(3) {
+		case 0:
+			orig = NewFContext("cid0")
+		case 1:
+			orig, _ = vfMakeCtx('r', nil)
+		case 2:
+			orig = NewFContext("cid0")
+			orig.AddResponseHeader(opIDHeader, "77").AddResponseHeader(cidHeader, "rcid").AddResponseHeader(timeoutHeader, "5")
+		}
 		orig.AddRequestHeader("a", "a0").AddResponseHeader("a", "ra0")
 		orig.(FContextWithEphemeralProperties).AddEphemeralProperty("a", "ea0")
 		// whole and fractional milliseconds: whatever the original reports, the clone must report too
@@ -425,8 +451,10 @@ func vfCloneMake(scn string) (func(), func(*vsched.Exec) (string, *vsched.Violat
 		}
 		// the clone starts equal to the original except for the op id (a plain FContext carries no
 		// ephemeral properties, so none can be copied)
-		if vfDump(ro.req) != vfDump(rc.req) || vfDump(ro.resp) != vfDump(rc.resp) || (!plain && vfDump(ro.eph) != vfDump(rc.eph)) {
-			bad = fmt.Sprintf("clone does not start equal: orig{%s|%s|%s} clone{%s|%s|%s}", vfDump(ro.req), vfDump(ro.resp), vfDump(ro.eph), vfDump(rc.req), vfDump(rc.resp), vfDump(rc.eph))
+		delete(ro.req, opIDHeader)
+		delete(rc.req, opIDHeader)
+		if vfDumpFull(ro.req) != vfDumpFull(rc.req) || vfDumpFull(ro.resp) != vfDumpFull(rc.resp) || (!plain && vfDump(ro.eph) != vfDump(rc.eph)) {
+			bad = fmt.Sprintf("clone does not start equal: orig{%s|%s|%s} clone{%s|%s|%s}", vfDumpFull(ro.req), vfDumpFull(ro.resp), vfDump(ro.eph), vfDumpFull(rc.req), vfDumpFull(rc.resp), vfDump(rc.eph))
 			return
 		}
 		if orig.Timeout() != cl.Timeout() {
